@@ -5,6 +5,7 @@
     (ambiguous grammars resolved by priorities / associativity / prefer_shifts / nops / nopse).
 (C) real LRParser+StringLexer+TreeBuilder outcome == Gallina model outcome on every input; every
     real Ok tree is judged by the verified oracle derivation_b; partial parsing checked against full."""
+import os
 import random
 
 from rvlib import *  # noqa
@@ -45,6 +46,56 @@ def make_cases(tier, seed):
                               meta=dict(shape=g.shape, gi=gi)))
             toks.append(words)
     return cases, toks
+
+
+PLUMB_GRAMMARS = {
+    "plain": "S: Word+;\nterminals\nWord: /[a-z]+/;\n",
+    "layout": "S: Word+;\nLayout: LayoutItem+;\nLayoutItem: WS | Comment;\nterminals\nWord: /[a-z]+/;\nWS: /\\s+/;\n"
+              "Comment: /\\/\\/.*/;\n",
+}
+
+
+def parser_plumbing(rep):
+    """What the runtime consumes is configured in the GENERATED parser: StringLexer::new(<skip_ws>, ..) and
+    LRParser::new(.., <partial_parse>, <has_layout>, ..) / GlrParser::new(.., <partial_parse>, <has_layout>, ..).
+    (The harness drives the runtimes with these values directly; this closes the gap to the code the generator writes.)
+    For every grammar x algorithm x skip_ws x partial_parse the real generator (rvgen) writes a parser and the three
+    constants must be: skip_ws = setting AND no Layout rule, partial_parse = setting, has_layout = grammar has Layout."""
+    import itertools
+    import re
+    import genlib as GL
+    n = 0
+    b = lambda x: "true" if x else "false"
+    for (gname, gtext), algo, sk, pp in itertools.product(PLUMB_GRAMMARS.items(), ["lr", "glr"], [0, 1], [0, 1]):
+        d = GL.fresh_dir("c02plumb", "%s_%s_%d%d" % (gname, algo, sk, pp))
+        gpath = os.path.join(d, "plumb.rustemo")
+        with open(gpath, "w") as f:
+            f.write(gtext)
+        calls = ["in_source_tree", "force:true", "parser_algo:" + algo, "skip_ws:" + b(sk), "partial_parse:" + b(pp),
+                 "builder_type:generic"]
+        r = GL.rvgen(["gen", gpath] + calls)
+        src = os.path.join(d, "plumb.rs")
+        payload = dict(grammar=gtext, settings=calls)
+        if r.result != "OK" or not os.path.exists(src):
+            rep.violation("plumbing-generator", "the generator did not write a parser for the plumbing grammar",
+                          dict(payload, result=r.result, msg=r.msg[:300]), found_input=False)
+            continue
+        text = " ".join(open(src).read().split())
+        has_layout = gname == "layout"
+        m1 = re.search(r"StringLexer::new\(\s*(true|false)\s*,", text)
+        if algo == "lr":
+            m2 = re.search(r"LRParser::new\(\s*&PARSER_DEFINITION\s*,\s*State::default\(\)\s*,\s*(true|false)\s*,\s*(true|false)\s*,", text)
+        else:
+            m2 = re.search(r"GlrParser::new\(\s*&PARSER_DEFINITION\s*,\s*(true|false)\s*,\s*(true|false)\s*,", text)
+        got = dict(skip_ws=m1.group(1) if m1 else None, partial_parse=m2.group(1) if m2 else None,
+                   has_layout=m2.group(2) if m2 else None)
+        want = dict(skip_ws=b(sk and not has_layout), partial_parse=b(pp), has_layout=b(has_layout))
+        n += 1
+        if got != want:
+            rep.violation("parser-setting-not-plumbed", "the generated parser is not constructed with the configured "
+                          "whitespace skipping / partial parsing / layout flags (what the parser consumes, and which "
+                          "tree it returns, depends on them)", dict(payload, expected=want, generated=got))
+    return n
 
 
 def run(rep, tier, seed):
@@ -182,6 +233,7 @@ def run(rep, tier, seed):
                                   dict(grammar=r0.case.grammar, table=r0.case.table, flags=r0.case.flags, input=text,
                                        full=a, partial=b))
                     break
+    n_plumb = parser_plumbing(rep)
     pt = rep.theorems or {}
     nthm = len(pt.get("theorems", []))
     rep.coverage = dict(
@@ -196,7 +248,7 @@ def run(rep, tier, seed):
              "non-trivial = inputs the real parser accepted (a tree was built and judged by derivation_b)",
         grammars_generated=len(cases), grammars_accepted=len(accepted), grammars_rejected_conflicts=rejected,
         grammars_compiler_error=errors, shapes=shapes,
-        inputs_ok=n_ok, inputs_err=n_err, inputs_other=n_other, partial_pairs_compared=n_partial_pairs, byte_level_partial_pairs_compared=n_byte_pairs, reused_parser_results_compared=n_seq, reused_parser_sequences_skipped_hang=n_seq_skipped,
+        inputs_ok=n_ok, inputs_err=n_err, inputs_other=n_other, partial_pairs_compared=n_partial_pairs, byte_level_partial_pairs_compared=n_byte_pairs, reused_parser_results_compared=n_seq, generated_parser_setting_configurations_checked=n_plumb, reused_parser_sequences_skipped_hang=n_seq_skipped,
         samples=samples)
     rep.assumptions = ["token-level: each terminal is a distinct one-letter string recognizer, tokens separated by "
                        "one space (lexical disambiguation is C06's subject)",
